@@ -1,5 +1,6 @@
 from typing import Iterable, Callable, Any, SupportsFloat
-from sympy import Expr, S, Mul, Add, Pow, Abs, Min, Max, Derivative, Indexed, Function as SymFunction, sympify
+from sympy import (Expr, S, Mul, Add, Pow, Abs, Min, Max, Derivative, Indexed, Function as SymFunction,
+    nsimplify, sympify)
 from sympy.functions.elementary.miscellaneous import MinMaxBase
 from sympy.physics.units import Dimension, Quantity as SymQuantity
 from sympy.physics.units.systems.si import dimsys_SI
@@ -67,7 +68,10 @@ def _collect_pow(expr: Pow) -> tuple[Expr, Dimension]:
     base_expr, base_dim = collect_expression_and_dimension(expr.base)
 
     expr_ = base_expr**exp_expr
-    dim = base_dim**exp_expr
+    # NOTE: dimensions with float and rational exponents do not compare as equivalent,
+    # eg `length**2.0` and `length**2`
+    dim_exp = nsimplify(exp_expr, rational=True) if exp_expr.is_Float else exp_expr
+    dim = base_dim**dim_exp
 
     return expr_, dim
 
